@@ -122,6 +122,8 @@ pub static mut SINK_RECORDS_LIVE: bool = false;
 pub static mut SINK_LEN: usize = 0;
 pub static mut SINK_ELEM0: (usize, usize) = (0, 0);
 pub static mut SINK_FIRST_BYTE: u8 = 0;
+pub static mut TAKE: (usize, usize, usize, usize) = (0, 0, 0, 0);
+pub static mut TAKE_FIRST: (u8, u32) = (0, 0);
 pub static mut FETCH_CALLS: u32 = 0;
 pub static mut FETCH_ARG: u32 = 0;
 pub static mut FETCH_LEN: usize = 0;
@@ -152,6 +154,14 @@ pub mod mockhost {
             }
             ret.cast::<*mut u8>().write(list);
             ret.add(P).cast::<usize>().write(FETCH_LEN);
+        }
+    }
+    /// take-str(string, list<u32>): flat (pointer, length, pointer, length); the callee reads the bytes / words while it runs
+    pub unsafe fn verif_val_sinks__take_str(sp: *mut u8, sl: usize, lp: *mut u8, ll: usize) -> i32 {
+        unsafe {
+            TAKE = (sp as usize, sl, lp as usize, ll);
+            TAKE_FIRST = (if sl > 0 { *sp } else { 0 }, if ll > 0 { lp.cast::<u32>().read_unaligned() } else { 0 });
+            7
         }
     }
     /// send-fvar(variant { f(f32), w(u64), d(f64) }) -> the same type: flat (case, joined i64 slot, return pointer).  The host lifts as
@@ -1677,5 +1687,29 @@ mod proofs {
     #[kani::stub(alloc::string::String::from_utf8, from_utf8_stub)]
     pub fn c06_list_of_mixed_records_param_len3() {
         body_entries(false, true, 3, 0);
+    }
+
+    /// a string and a canonical list passed to an import are BORROWED: the callee sees the caller's own buffers (no copy), nothing is freed
+    #[kani::proof]
+    #[kani::unwind(4)]
+    #[kani::stub(alloc::alloc::alloc, alloc_stub)]
+    #[kani::stub(alloc::alloc::dealloc, dealloc_stub)]
+    #[kani::stub(alloc::alloc::realloc, realloc_stub)]
+    #[kani::stub(alloc::alloc::dealloc_nonnull, dealloc_nonnull_stub)]
+    #[kani::stub(alloc::alloc::realloc_nonnull, realloc_nonnull_stub)]
+    pub fn c05_c06_import_string_and_list_passed_by_reference() {
+        let b = ascii2();
+        let w: [u32; 2] = kani::any();
+        unsafe {
+            let s = string_of(&b, 2);
+            let mut l: Vec<u32> = Vec::new();
+            l.push(w[0]);
+            l.push(w[1]);
+            let before = live_blocks();
+            let r = verif::val::sinks::take_str(&s, &l);
+            kani::assert(r == 7 && TAKE == (s.as_ptr() as usize, 2, l.as_ptr() as usize, 2), "the callee receives the caller's own buffers and their lengths (no copy)");
+            kani::assert(TAKE_FIRST == (b[0], w[0]), "the callee reads the caller's data");
+            kani::assert(!BAD_FREE && live_blocks() == before && s.as_bytes()[1] == b[1] && l[1] == w[1], "nothing is freed or changed by the call: the arguments are still the caller's");
+        }
     }
 }
